@@ -1391,6 +1391,24 @@ int main(int argc, char **argv)
     reset_workdir(wd0);
     Outcome o = run_child([&]() { return child_body(conf, true); }, T_RETRY, RSS_CAP_MB);
     Rep r = parse_rep(o.out);
+    if (o.kind != "ok") {
+      // a valid configuration that ends abnormally is itself a violation of the property (replayed once);
+      // it cannot serve as a base
+      reset_workdir(wd0);
+      Outcome o2 = run_child([&]() { return child_body(conf, false); }, T_RETRY, RSS_CAP_MB);
+      if (o2.kind != "ok") {
+        total.count("evaluations");
+        total.count("bases_ending_abnormally");
+        total.violation(raw_sig("base:" + cf.first + "=unchanged", o2.kind, o2.func),
+                        "{\"base\":\"" + jesc(cf.first) + "\",\"mutation\":\"none (valid base configuration)\",\"end\":\"" +
+                            jesc(o2.kind) + "\",\"site\":\"" + jesc(o2.site) + "\",\"replayed_end\":\"" + jesc(o.kind) +
+                            "\",\"expected\":\"normal return\",\"report\":\"" + jesc(o2.report.substr(0, 2500)) +
+                            "\",\"config\":\"" + jesc(conf) + "\"}");
+        continue;
+      }
+      o = run_child([&]() { return child_body(conf, true); }, T_RETRY, RSS_CAP_MB);
+      r = parse_rep(o.out);
+    }
     if (o.kind != "ok" || !r.ok) {
       base_failures += "base configuration " + cf.first + " ended with " + o.kind + " " + o.site + "\n" + o.report.substr(0, 600) + "\n";
       continue;
@@ -1408,6 +1426,7 @@ int main(int argc, char **argv)
     BASES.push_back(b);
   }
   if (base_failures.size()) harness_error("base configurations must load and run cleanly:\n" + base_failures);
+  if (BASES.size() < 20) harness_error("fewer than 20 usable base configurations");
   // bias types and component types are block keywords everywhere
   {
     std::set<std::string> all;
@@ -1461,20 +1480,22 @@ int main(int argc, char **argv)
         bool blocky_absent = m.kid < 0 && BLOCK_KEYS.count(m.kw);
         bool group = ctxl == "atomGroup" || ctxl == "fittingGroup";
         static const std::set<std::string> group_classes = {"0", "-1", "1000000", "nan", "empty", "noexist",
-                                                            "absent", "long", "short"};
+                                                            "absent", "long", "short", "swapped"};
+        bool main_class = group_classes.count(m.vclass) || m.vclass.rfind("range:", 0) == 0;
+        (void) more;
         std::string sig;
-        if (more || blocky_absent) {
-          // the additional value classes of this tier and component-type keywords: once per object type
+        if (!main_class || blocky_absent) {
+          // value classes 1, 2^63-1, 1e300, inf and the additional ones of this tier, and component-type
+          // keywords: once per object type; the main classes (0, -1, 10^6, nan, empty, non-existent name,
+          // absent, list too long/short, swapped boundaries) once per signature below
           sig = ctxl;
         } else if (group) {
           // atom groups: once per chain of object types (colvar/component/group) for the main classes
-          if (group_classes.count(m.vclass) || m.vclass.rfind("range:", 0) == 0) {
-            Node *n = &t;
-            for (size_t d = 0; d < m.path.size(); d++) {
-              n = &n->kids[m.path[d]];
-              sig += (d + 1 == m.path.size() ? ctxl : lower(n->key)) + "/";
-            }
-          } else sig = ctxl;
+          Node *n = &t;
+          for (size_t d = 0; d < m.path.size(); d++) {
+            n = &n->kids[m.path[d]];
+            sig += (d + 1 == m.path.size() ? ctxl : lower(n->key)) + "/";
+          }
         } else {
           // once per (chain of object types, keys present in the block, keyword, value class)
           Node *n = &t;
@@ -1532,7 +1553,12 @@ int main(int argc, char **argv)
   };
 
   // executes one list of cases sharded; discoveries of new keywords come back as notes "DISC\t…"
-  auto run_cases = [&](std::vector<Case> const &cs, std::string const &phase, Result &res) {
+  auto run_cases = [&](std::vector<Case> &cs, std::string const &phase, Result &res) {
+    // the cases that can be slow (value 10^6: large but legitimate sizes) go first so they do not form the tail
+    std::stable_partition(cs.begin(), cs.end(), [](Case const &c) {
+      for (auto const &m : c.muts) if (m.vclass == "1000000" || m.vclass == "-1000000") return true;
+      return false;
+    });
     queue_reset();
     return run_sharded(args.jobs, [&](int shard, int nsh, Result &r) {
       std::string wd = scratch + "/w" + std::to_string(shard);
@@ -1715,8 +1741,8 @@ int main(int argc, char **argv)
       std::string key = f.first;
       size_t p1 = key.find('|'), p2 = key.find('|', p1 + 1);
       std::string ctx = key.substr(p1 + 1, p2 - p1 - 1), kw = key.substr(p2 + 1);
-      // quick: one revealing case per (object type, keyword); thorough: per base as well
-      std::string dk = thorough ? key : ctx + "|" + kw;
+      // one revealing case per (object type, keyword)
+      std::string dk = ctx_label(BASES[cases[f.second].base], ctx) + "|" + kw;
       if (!done.insert(dk).second) continue;
       by_case[f.second][ctx].insert(kw);
       newkw.insert(ctx_label(BASES[cases[f.second].base], ctx) + ":" + kw);
@@ -1785,11 +1811,15 @@ int main(int argc, char **argv)
           sz.push_back(c.muts[0]);
       for (size_t i = 0; i < sz.size(); i++)
         for (size_t j = i + 1; j < sz.size(); j++) {
-          // same de-duplication as the quick tier: object-type chain + keyword pair
-          Node *n1 = walk(BASES[bi].tree, sz[i].path), *n2 = walk(BASES[bi].tree, sz[j].path);
-          std::string tops;
-          for (auto const &k : BASES[bi].tree.kids) if (k.block) tops += lower(k.key) + ",";
-          std::string key = tops + "|" + lower(n1->key) + ":" + sz[i].kw + "|" + lower(n2->key) + ":" + sz[j].kw;
+          // once per pair of (object type, keyword); pairs involving a module or colvar keyword once per
+          // set of bias types of the configuration
+          std::string l1 = ctx_label(BASES[bi], sz[i].ctx), l2 = ctx_label(BASES[bi], sz[j].ctx);
+          std::string key = l1 + ":" + sz[i].kw + "|" + l2 + ":" + sz[j].kw;
+          if (l1 == "module" || l1 == "colvar" || l2 == "module" || l2 == "colvar") {
+            std::set<std::string> bset;
+            for (auto const &k : BASES[bi].tree.kids) if (k.block && lower(k.key) != "colvar") bset.insert(lower(k.key));
+            for (auto const &k : bset) key += "+" + k;
+          }
           if (!seen.insert(key).second) continue;
           for (auto a : pv)
             for (auto b : pv) {
@@ -1816,15 +1846,16 @@ int main(int argc, char **argv)
     std::vector<SeqA> As = seqA();
     if (!thorough) As.resize(1);
     // B candidates: every phase-1/1b case whose configuration was rejected with a normal return
-    // (quick: the first rejected value class per object type and keyword; thorough: all of them)
+    // (quick: the first rejected value class per object type and keyword, after A1;
+    //  thorough: every rejected value class per object type and keyword, A1..A3 in rotation)
     std::vector<Case> bs;
     {
       std::set<std::string> seenB;
       auto takeB = [&](Case const &c) {
-        if (!thorough) {
-          Mut const &m = c.muts.back();
-          if (!seenB.insert(ctx_label(BASES[c.base], m.ctx) + ":" + m.kw).second) return;
-        }
+        Mut const &m = c.muts.back();
+        std::string k = ctx_label(BASES[c.base], m.ctx) + ":" + m.kw;
+        if (thorough) k += "=" + m.vclass;
+        if (!seenB.insert(k).second) return;
         bs.push_back(c);
       };
       for (size_t i : rejected1) takeB(cases[i]);
@@ -1842,7 +1873,7 @@ int main(int argc, char **argv)
         if (seen.insert(fnv(parts[i].first + "\x01" + parts[i].second)).second) order.push_back(i);
       }
     }
-    size_t nA = As.size();
+    size_t const nA = 1;
     Result r3;
     queue_reset();
     bool ok = run_sharded(args.jobs, [&](int shard, int nsh, Result &r) {
@@ -1851,7 +1882,7 @@ int main(int argc, char **argv)
       if (chdir(wd.c_str())) harness_error("chdir " + wd);
       for (size_t q; (q = (size_t) queue_take()) < order.size() * nA;) {
         size_t i = order[q / nA];
-        SeqA const &A = As[q % nA];
+        SeqA const &A = As[q % As.size()];
         Case const &c = bs[i];
         reset_workdir(wd);
         Outcome o = run_child([&]() { return seq_child(A, parts[i].first, parts[i].second); }, T_CASE * 2, RSS_CAP_MB);
